@@ -51,11 +51,58 @@ def table_fields(prog, res_cls):
     return out
 
 
+def slots(prog, run):
+    """applymask returns its list filtered element by element: the k-th returned table must be bound to the variable that was passed at
+    position k - otherwise two tables (say the frequency and the damping covariances) silently change places"""
+    n = 0
+    for ci in prog.classes.values():
+        if not ci.mod.startswith("pyoma2.algorithms"):
+            continue
+        m = ci.methods.get("run")
+        if m is None:
+            continue
+        f = rel(prog.mods[m.mod].path)
+        pm = astq.parent_map(m.node)
+        for c, r in prog.calls_in(m):
+            if not (isinstance(r, FuncInfo) and r.node.name == "applymask"):
+                continue
+            n += 1
+            b, errs = astq.bind_args(r.node, c)
+            first = astq.params_of(r.node)[0][0]
+            lst = b.get(first)
+            st = pm.get(c)
+            tgt = st.targets[0] if isinstance(st, ast.Assign) and len(st.targets) == 1 else None
+            if not (isinstance(lst, (ast.List, ast.Tuple, ast.Name)) and isinstance(tgt, (ast.Tuple, ast.List))):
+                run.ob("R-slots", m.qual, "filtered tables return to their variables", None, f"`{astq.src(st if st is not None else c, 80)}`: list literal / tuple target not recognised", file=f, node=c, config=f"call#{n}")
+                continue
+            # the list elements as written where the list was built (names), not their expansions
+            lst_names = None
+            if isinstance(lst, (ast.List, ast.Tuple)):
+                lst_names = [astq.src(e) for e in lst.elts]
+            elif isinstance(lst, ast.Name):
+                # lista = [..] assigned just before
+                d = [s_ for s_ in ast.walk(m.node) if isinstance(s_, ast.Assign) and any(isinstance(t, ast.Name) and t.id == lst.id for t in s_.targets)
+                     and s_.lineno <= c.lineno and isinstance(s_.value, (ast.List, ast.Tuple))]
+                if d:
+                    lst_names = [astq.src(e) for e in sorted(d, key=lambda s_: s_.lineno)[-1].value.elts]
+            tg_names = [astq.src(e) for e in tgt.elts]
+            if lst_names is None:
+                run.ob("R-slots", m.qual, "filtered tables return to their variables", None, f"list argument `{astq.src(lst, 50)}` not traced to a literal", file=f, node=c, config=f"call#{n}")
+                continue
+            ok = lst_names == tg_names
+            run.ob("R-slots", m.qual, "filtered tables return to their variables", ok,
+                   f"passed {lst_names}, bound back to {tg_names}" + ("" if ok else " - tables change places"), witness=f"{lst_names}->{tg_names}", file=f, node=c, config=f"call#{n}")
+    if not n:
+        run.ob("R-slots", "pyoma2.algorithms", "applymask calls", None, "no applymask call found in the run methods")
+
+
 def check(prog, run):
     run.rule("R-reach", "every criterion of the run-parameter defaults reaches every pole table of the result (criteria enabled, all configurations)", 60)
     run.rule("R-same-pattern", "all pole tables of one result carry the same set of criteria (one NaN pattern)", 7)
     run.rule("R-bind", "hc['xi_max'] -> HC_damp.max_damp, hc['mpc_lim'] / hc['mpd_lim'] -> HC_phi_comp parameters of those names, hc['cov_max'] -> HC_cov.max_cov", 15)
     run.rule("R-sense", "keep-conditions: 0 < xi < xi_max, MPC >= mpc_lim, MPD <= mpd_lim, cov < cov_max; applymask keeps values where the mask is true, NaN elsewhere", 6)
+    run.rule("R-slots", "every applymask call gets its filtered tables back into the variables they came from, position by position (values of the retained poles unchanged)", 12)
+    slots(prog, run)
     run.assume("dependence (taint) analysis: a criterion 'reaches' a table if the table's value depends on a mask computed from that criterion's value; "
                "it is a necessary condition for the criterion to take effect, not a proof that the right poles are removed")
     for cq, method, unc in CLASSES:
